@@ -181,7 +181,9 @@ def oracle(run):
            ("# Pie, serves 4\n", ("Pie,", 4)), ("Needs {2} eggs per person.\n\n# Pancakes for 4\n", ("Pancakes", 4)),
            ("Grandma's famous\nSunday roast for 6\n===\n", ("Grandma's famous\nSunday roast", 6)), ("Two line\ntitle\n=====\n", ("Two line\ntitle", None)),
            ("# Soup {v2\\} for 4\n", ("Soup {v2}", 4)), ("Tiffin {nut free\\} SERVES  6\n===\n", ("Tiffin {nut free}", 6)), ("# Hello \\{ and \\} for 3\n", ("Hello { and }", 3)),
-           ("# Soup for 0\n", ("Soup", 0))]
+           ("# Soup for 0\n", ("Soup", 0)),
+           # digits of other scripts are not a count
+           ("# \u30ab\u30ec\u30fc for \uff14\n", ("\u30ab\u30ec\u30fc for \uff14", None)), ("# Kabsa serves \u0664\n", ("Kabsa serves \u0664", None)), ("# Dal makes \u0967\u0968\n", ("Dal makes \u0967\u0968", None))]
     # leading lines of the kind other tools put first: a rule followed by a paragraph with a rule under it is a second-level heading, and it comes first
     neg += [("---\ntags: soup\n---\n\n# Stew for 6\n", (None, None)), ("---\ntitle: Other\ndate: 2020\n---\n# Stew for 6\n", (None, None)),
             ("---\n\n---\n\n# Stew for 6\n", ("Stew", 6)), ("---\n# Stew for 6\n", ("Stew", 6)), ("***\nStew for 6\n---\n\n# Soup for 2\n", (None, None))]
